@@ -25,7 +25,7 @@ import (
 func TestVerifC08(t *testing.T) {
 	vfMain(t, vfCheck{
 		ID: "C08", Level: "fault_enumeration",
-		Rule:        "for every packet type a valid reference encoding, then every truncation point, every 4-byte window replaced by each of {0,1,n-1,n+1,2^20,2^31-1,2^32-1}, every type byte 0..255, plus seeded random bodies and flag words; each mutant is fed to every applicable decoding entry point of packet.go and filexfer. A class is (entry point, packet type, mutation kind).",
+		Rule:        "for every packet type a valid reference encoding, then every truncation point, every 4-byte window replaced by each of {0,1,n-1,n+1,2^20,2^28,2^29,2^29+1,2^30,2^31-1,2^32-1}, every type byte 0..255, plus seeded random bodies and flag words; each mutant is fed to every applicable decoding entry point of packet.go and filexfer. A class is (entry point, packet type, mutation kind).",
 		Assumptions: []string{"allocation bound: bytes allocated by one decode call <= 64*len(input) + 1 MiB (affine; hostile counts are >= 2^20 so a count-driven make overshoots by >= 8 MiB)", "child processes run with RLIMIT_AS = 3 GiB so that an absurd allocation is a deterministic fatal error attributed through the journal"},
 		Units: func(tier vfTier, seed uint64) int {
 			if tier == vfThorough {
